@@ -103,6 +103,34 @@ def lemma_count(relpaths):
     return n
 
 
+def coqchk(module, timeout=3000):
+    """Re-check the compiled property module and everything it depends on with Coq's independent checker.
+    Returns (ok, axioms, text).  ok = the checker accepted every library and reports no type-in-type, unsafe fixpoint or
+    assumed positivity."""
+    rc, out = C.sh(["coqchk", "-o", "-silent", "-Q", os.path.join(C.COQ, "theories"), "UomV", "UomV." + module], cwd=C.COQ, timeout=timeout)
+    axioms, sect = [], None
+    clean = {"type-in-type": False, "unsafe": False, "positivity": False}
+    for line in out.splitlines():
+        st = line.strip()
+        if st.startswith("* Axioms:"):
+            sect = "ax"
+            if st.endswith("<none>"):
+                sect = None
+            continue
+        if st.startswith("* Constants/Inductives relying on type-in-type:"):
+            clean["type-in-type"] = st.endswith("<none>"); sect = None; continue
+        if st.startswith("* Constants/Inductives relying on unsafe"):
+            clean["unsafe"] = st.endswith("<none>"); sect = None; continue
+        if st.startswith("* Inductives whose positivity is assumed:"):
+            clean["positivity"] = st.endswith("<none>"); sect = None; continue
+        if st.startswith("*"):
+            sect = None
+            continue
+        if sect == "ax" and st:
+            axioms.append(st)
+    return rc == 0 and all(clean.values()), axioms, out[-1500:]
+
+
 def audit(module, theorems, workdir=None):
     """Print Assumptions for each theorem of UomV.<module>.  Returns dict name -> (ok, axioms|error)."""
     workdir = C.ensure_dir(workdir or os.path.join(C.BUILD, "audit"))
